@@ -3085,7 +3085,7 @@ inductive IStep (H : Hashes) : CSt V → CSt V → Prop
                  count := st.m.count + (((op.apply H (st.m.segAt i)).size : Int) - ((st.m.segAt i).size : Int)) },
           pend := st.pend }
   | secDefer (st : CSt V) (t i : Nat) (op : SegOp V) : i < st.m.segs.size → op.home H st.m.segs.size i →
-      t < st.pend.length →
+      t < st.pend.length → (op.apply H (st.m.segAt i)).size ≤ (st.m.segAt i).size →
       IStep H st
         { m := { segs := st.m.segs.setIfInBounds i (op.apply H (st.m.segAt i)), count := st.m.count },
           pend := st.pend.set t (st.pend.getD t 0 - (((op.apply H (st.m.segAt i)).size : Int) - ((st.m.segAt i).size : Int))) }
@@ -3144,7 +3144,7 @@ theorem istep_inv {H : Hashes} (hH : HashOk H) {s u : CSt V} (inv : IInv H s) (h
       rw [u2]; exact u1
     · show s.m.count + _ = total _ + s.pend.sum
       rw [u2, inv.acct]; omega
-  | secDefer t i op hi hhome ht =>
+  | secDefer t i op hi hhome ht _ =>
     obtain ⟨u1, u2⟩ := upd i op s.m.count hi hhome
     refine ⟨?_, ?_⟩
     · show SegInv H { segs := _, count := total _ }
@@ -3224,7 +3224,8 @@ theorem spill_is_two_steps {H : Hashes} (hH : HashOk H) {m : SegMap V} (inv : Se
     (hj : j < m.segs.size) (pend : List Int) (ht : t < pend.length) (h0 : pend.getD t 0 = 0) :
     ∃ mid, IStep H ⟨m, pend⟩ mid ∧ IStep H mid ⟨evictSeg H m j offset n skip, pend⟩ := by
   obtain ⟨_, _, e3, _, _⟩ := evict_spec hH.idx (inv.segs j hj) offset n skip
-  refine ⟨_, IStep.secDefer ⟨m, pend⟩ t j (SegOp.evict offset n skip) hj trivial ht, ?_⟩
+  refine ⟨_, IStep.secDefer ⟨m, pend⟩ t j (SegOp.evict offset n skip) hj trivial ht
+    (by show (UMap.evictKeysAt H.idx (m.segAt j) offset n skip).1.size ≤ _; omega), ?_⟩
   have hf := IStep.flush (H := H) (V := V)
     ⟨{ segs := m.segs.setIfInBounds j ((SegOp.evict offset n skip).apply H (m.segAt j)), count := m.count },
      pend.set t (pend.getD t 0 - ((((SegOp.evict offset n skip).apply H (m.segAt j)).size : Int) - ((m.segAt j).size : Int)))⟩
@@ -3491,6 +3492,76 @@ theorem cleanup_keeps_fresh (s : Lim) (k now cutoff : Nat) (first : Option Nat) 
     (k, now) ∈ ((s.get k now first).cleanup cutoff).ents := by
   obtain ⟨h1, h2, _, _⟩ := lim_get_spec s k now first inv hfirst
   exact ((lim_cleanup_spec _ cutoff h1).2 (k, now)).mpr ⟨h2, h⟩
+
+/-- the deferred counter adjustments are never negative: only removals are deferred -/
+theorem ireach_pend_nonneg {H : Hashes} {s u : CSt V} (h : IReach H s u) (h0 : ∀ t, 0 ≤ s.pend.getD t 0) :
+    ∀ t, 0 ≤ u.pend.getD t 0 := by
+  induction h with
+  | refl => exact h0
+  | step _ st ih =>
+    cases st with
+    | secAdd i op _ _ => exact ih
+    | secDefer t i op _ _ ht hle =>
+      intro t'
+      simp only
+      rw [List.getD_eq_getElem?_getD, List.getElem?_set]
+      split
+      · rename_i h; subst h
+        simp only [ht, if_true, Option.getD_some]
+        have := ih t
+        omega
+      · have := ih t'; rw [List.getD_eq_getElem?_getD] at this; exact this
+    | flush t ht =>
+      intro t'
+      simp only
+      rw [List.getD_eq_getElem?_getD, List.getElem?_set]
+      split
+      · rename_i h; subst h; simp [ht]
+      · have := ih t'; rw [List.getD_eq_getElem?_getD] at this; exact this
+
+theorem sum_nonneg_of_all (l : List Int) (h : ∀ t, 0 ≤ l.getD t 0) : 0 ≤ l.sum := by
+  induction l with
+  | nil => simp
+  | cons a r ih =>
+    have h0 := h 0
+    simp only [List.getD_cons_zero] at h0
+    have := ih (fun t => by simpa using h (t + 1))
+    rw [List.sum_cons]; omega
+
+/-- **the counter never under-reports**: in every state of every interleaving the
+number of stored entries is at most the atomic counter -/
+theorem ireach_total_le_count {H : Hashes} (hH : HashOk H) {m0 : SegMap V} (inv0 : SegInv H m0) (threads : Nat)
+    {st : CSt V} (h : IReach H ⟨m0, List.replicate threads 0⟩ st) :
+    (st.m.reachable : Int) ≤ st.m.count := by
+  have i0 : IInv H (⟨m0, List.replicate threads 0⟩ : CSt V) := by
+    refine ⟨?_, ?_⟩
+    · show SegInv H { m0 with count := total m0 }
+      rw [← inv0.count]; exact inv0
+    · show m0.count = total m0 + (List.replicate threads (0 : Int)).sum
+      rw [inv0.count]
+      have : (List.replicate threads (0 : Int)).sum = 0 := by
+        apply sum_all_zero; intro t; simp [List.getD_eq_getElem?_getD, List.getElem?_replicate]; split <;> rfl
+      omega
+  have inv := ireach_inv hH i0 h
+  have hp := ireach_pend_nonneg h (by
+    intro t; show 0 ≤ (List.replicate threads (0 : Int)).getD t 0
+    simp [List.getD_eq_getElem?_getD, List.getElem?_replicate]; split <;> simp)
+  have hs := sum_nonneg_of_all _ hp
+  have hr : (st.m.reachable : Int) = total st.m := by
+    have := len_eq_reachable inv.struct
+    show ((SegMap.reachable st.m : Nat) : Int) = total st.m
+    exact this.symm
+  rw [hr, inv.acct]; omega
+
+/-- a toll visit that evicts nothing saw a segment holding no key but (possibly) the writer's own -/
+theorem fruitless_visit {H : Hashes} (hH : HashOk H) {m : SegMap V} (inv : SegInv H m) (j offset deficit k : Nat)
+    (hj : j < m.segs.size) (hd : 0 < deficit) (h0 : evictCnt H m j offset deficit k = 0) :
+    ∀ k', abs (m.segAt j) k' ≠ none → k' = k := by
+  intro k' hk'
+  have hsame := (evict_spec hH.idx (inv.segs j hj) offset deficit k).2.2.2.1 h0
+  have := evict_complete hH.idx (inv.segs j hj) offset deficit k (by unfold evictCnt at h0; omega) k'
+  rw [hsame] at this
+  exact this hk'
 
 /-! ### the real mixers are admissible instances -/
 
